@@ -26,6 +26,8 @@ pub mod semantic_analysis;
 pub mod source_map;
 pub mod transform;
 pub mod type_system;
+#[cfg(fuellabs_sway_verif)]
+pub mod verif;
 
 use crate::decl_engine::DeclEngineGet as _;
 use crate::engine_threading::SpannedWithEngines;
@@ -1622,6 +1624,19 @@ pub(crate) fn compile_ast_to_ir_to_asm(
     options.force_verify_ir = force_verify_ir;
     ir.verify_ssa_dominance = force_verify_ir;
 
+    #[cfg(fuellabs_sway_verif)]
+    if let Some(hook_res) =
+        verif::run_ir_pipeline_hook(&mut ir, &mut pass_mgr, &pass_group, &options)
+    {
+        if let Err(ir_error) = hook_res {
+            return Err(handler.emit_err(CompileError::InternalOwned(
+                ir_error.to_string(),
+                span::Span::dummy(),
+            )));
+        }
+        return compile_ir_context_to_finalized_asm(handler, &ir, Some(build_config));
+    }
+
     let res = if let Err(ir_error) = pass_mgr.run(&mut ir, &pass_group, &options) {
         Err(handler.emit_err(CompileError::InternalOwned(
             ir_error.to_string(),
@@ -1808,6 +1823,10 @@ fn check_should_abort(
     retrigger_compilation: Option<Arc<AtomicBool>>,
 ) -> Result<(), ErrorEmitted> {
     if let Some(ref retrigger_compilation) = retrigger_compilation {
+        #[cfg(fuellabs_sway_verif)]
+        sway_types::verif_hooks::point("abort.check", &|| {
+            retrigger_compilation.load(Ordering::SeqCst).to_string()
+        });
         if retrigger_compilation.load(Ordering::SeqCst) {
             return Err(handler.cancel());
         }
